@@ -232,17 +232,21 @@ template<class T> struct Driver {
     return c;
   }
 
-  void do_rankgrid(int i, const std::vector<double>& xs) {
+  static std::vector<double> strictly_increasing(std::vector<double> v) { std::sort(v.begin(), v.end()); v.erase(std::unique(v.begin(), v.end()), v.end()); return v; }
+  void do_rankgrid(int i, const std::vector<double>& xs_in) {
+    const std::vector<double> xs = strictly_increasing(xs_in);   // (min == max: the grid must not repeat a value)
     std::vector<double> rs; long nnan = 0;
     for (double x : xs) { double r = sk[i]->get_rank((T)x); if (std::isnan(r)) { nnan++; r = -INFINITY; } rs.push_back(r); }
     Ev e("RankGrid"); e.i("id", i).dl("xs", xs).dl("rs", rs).i("nnan", nnan).i("maxdrop", max_drop<double>(rs)); finish(e, i);
   }
-  void do_quantgrid(int i, const std::vector<double>& ps) {
+  void do_quantgrid(int i, const std::vector<double>& ps_in) {
+    const std::vector<double> ps = strictly_increasing(ps_in);
     std::vector<double> qs; long nnan = 0;
     for (double p : ps) { double q = (double)sk[i]->get_quantile(p); if (std::isnan(q)) { nnan++; q = -INFINITY; } qs.push_back(q); }
     Ev e("QuantGrid"); e.i("id", i).dl("ps", ps).dl("qs", qs).i("nnan", nnan).i("maxdrop", max_drop<T>(qs)); finish(e, i);
   }
-  void do_cdf(int i, const std::vector<double>& sp) {
+  void do_cdf(int i, const std::vector<double>& sp_in) {
+    const std::vector<double> sp = strictly_increasing(sp_in);   // the API requires unique, increasing split points
     std::vector<T> pts; for (double v : sp) pts.push_back((T)v);
     auto cdf = sk[i]->get_CDF(pts.data(), (uint32_t)pts.size());
     auto pmf = sk[i]->get_PMF(pts.data(), (uint32_t)pts.size());
@@ -433,6 +437,36 @@ template<class T> struct Driver {
     }
     { Ev e("Obs"); e.i("id", 0).raw("r", proj_json(project(*sk[0]))); e.emit(); }
   }
+  // (d) degenerate contents: no value, NaN only, one value, two equal values, a constant stream, two distinct values - each
+  // observed with every query before and after a compress
+  void observe_all(int i) {
+    if (last[i].empty) { do_emptyquery(i); return; }
+    auto pool = value_pool(last[i]);
+    do_rankgrid(i, pool); do_quantgrid(i, rank_pool(last[i]));
+    do_cdf(i, std::vector<double>{pool[pool.size() / 2]}); do_cdf(i, pool.size() > 6 ? std::vector<double>(pool.begin() + 1, pool.begin() + 6) : pool);
+    do_badquery(i, last[i].mn, last[i].mx);
+    { Ev e("Obs"); e.i("id", i).raw("r", proj_json(project(*sk[i]))); e.emit(); }
+  }
+  void directed_degenerate(long seg) {
+    begin_segment(seg, "degenerate-contents");
+    static const int KS[] = {10, 11, 30, 200};
+    for (int round = 0; round < 12; round++) {
+      const double v = draw(), w = draw();
+      mk(0, KS[g.below(4)]);
+      observe_all(0);
+      do_nan(0); do_nan(0); observe_all(0);                       // NaN only: still empty
+      do_updates(0, std::vector<double>{v}); observe_all(0);     // one value, buffered
+      if (g.chance(50)) { do_compress(0); observe_all(0); }      // one value, as a centroid
+      switch (round % 4) {
+        case 0: do_updates(0, std::vector<double>{v}); break;                                   // two equal values
+        case 1: do_updates(0, std::vector<double>(g.range(2, 500), v)); break;                  // constant stream
+        case 2: do_updates(0, std::vector<double>{w}); break;                                   // two (almost surely distinct) values
+        default: do_nan(0); do_updates(0, std::vector<double>{v, w, v}); break;
+      }
+      observe_all(0); do_compress(0); observe_all(0);
+      mk(1, 10); do_merge(0, 1); do_merge(1, 0); observe_all(1);   // merging an empty sketch, merging into an empty sketch
+    }
+  }
   // (c) one long stream, with a quantile grid now and then
   void directed_long_stream(long seg, int k, long n) {
     begin_segment(seg, "long-stream");
@@ -619,6 +653,7 @@ int main(int argc, char** argv) {
       case 2: d.directed_merge_chain(0, 10, 250); d.directed_merge_chain(1, 50, 250); break;
       case 3: d.directed_query_each(0, 200, 1500); break;
       case 4: d.directed_merge_chain(0, 200, 400); break;
+      case 5: d.directed_degenerate(0); d.directed_degenerate(1); break;
       default: d.directed_long_stream(0, directed % 2 ? 200 : 100, 1200000); break;
     }
   } else if (trials > 0) {
